@@ -29,7 +29,7 @@ fn with_build_everywhere(ast: &RangeAst) -> RangeAst {
     };
     for alt in a.alts.iter_mut() {
         match alt {
-            Alt::Hyphen { lo, hi } => {
+            Alt::Hyphen { lo, hi, .. } => {
                 if let Some(l) = lo {
                     fix(l);
                 }
